@@ -105,7 +105,10 @@ def case_kernel(col, p):
             op2 = RS.sweep_operator(grids, axis, nu, ms, gamma, h, dt, beta=beta, use_delj=bool(delj), form='R2')
             R2 = full_reference(grids, axis, op2)
             if delj:
-                okr = np.allclose(R1, R2, rtol=0, atol=1e-11 * max(1.0, np.abs(R1).max()))
+                # float references (exp): the two codings differ by round-off, amplified on lines with a near-vanishing pivot exactly as
+                # the implementation's elimination is (same per-line amplification factor as in the verdict below)
+                amp12 = line_amplification(grids, axis, op1)
+                okr = bool((np.abs(R1 - R2) / amp12[:, None] <= 1e-11 * max(1.0, np.abs(R1).max())).all())
             else:
                 okr = np.array_equal(R1, R2)
             col.tick(reference_cross_checks=1)
